@@ -26,6 +26,21 @@ TB = ('Trusted: Lean 4.33 kernel; axioms propext/Classical.choice/Quot.sound onl
       'no sorry, no own axioms); the translator and the correspondence harness; the shims for datedelta/grapheme/ruamel; '
       'CPython/regex behaviour. ')
 
+check('C13', 'proof',
+      'The IPv4 / IPv6 / GUID patterns are re-translated from the working tree\'s resource files into Lean regex ASTs on every '
+      'run (translator validated by a regex correspondence against the real `regex` module on ~12k (pattern, string) pairs) '
+      'and the theorems are re-checked against them: octet_lang / ipv4_lang / ipv4_sound (every match is a valid dotted '
+      'quad, for any engine tables) / ipv4_complete_unique / ipv4_reported_span; hextet_lang / ipv6_lang / ipv6_sound / '
+      'ipv6_complete (all RFC 4291 exploded and `::` forms); guid_lang / guid_sound / guid_complete_unique_*; '
+      'drop_zeros_same_address / _canonical / _group_value; ip_extract_sound, guid_extract_sound (every reported entity has '
+      'the span of a regex match). Pipeline: recognize_ip_address / recognize_guid against Python\'s ipaddress / uuid as '
+      'independent oracles (10^4 boundary quads, seeded v4/v6 at every compression position, near misses, 4 GUID layouts, '
+      'carrier sentences). E-mail, URL, hashtag, mention, phone: grammar-generated strings, correspondence only.',
+      TB + 'IPv6 exact reported span (no uniqueness theorem: `1::2` is also a match inside `1::2:3`), QueryProcessor.preprocess and the '
+      'e-mail/URL/hashtag/mention/phone regexes are covered by correspondence only. The `regex` module\'s own \\d/\\w/\\s tables are exported each run.',
+      'Lean 4 proofs on regex ASTs regenerated from source + regex/unit/pipeline correspondence',
+      'DESIGN.md §3 C13')
+
 check('C14', 'proof',
       'Lean model of datatypes_timex_expression parse / infer / format (the working tree\'s package, never site-packages). '
       'Proved for ALL strings of the 12 date patterns, the 4 time patterns and PRESENT_REF (digits universally quantified): '
@@ -97,6 +112,17 @@ check('C19', 'other',
       'never touches /repo\'s recogniser code (it imports site-packages); this check sets PYTHONPATH to the working tree.',
       'exhaustive differential replay of the Specs corpus (no theorem can apply; see DESIGN.md §5)',
       'DESIGN.md §3 C19')
+
+check('C20', 'proof',
+      'The boolean patterns are regenerated from the working tree each run; the alternatives form a finite language that Lean '
+      'enumerates and checks with the kernel on the real regenerated environment: alts_listed, alts_polarity (every '
+      'alternative incl. the emoji × {lower, UPPER, Title} × 8 contexts → exactly one entity with the exact span and its own '
+      'polarity), neutral_nothing, both_polarities_one_entity, reported_score_unit_interval (all environments and queries); '
+      'the model mirrors tokenisation, match_value (exact fractions), top-match selection, parser and model, and is tied by '
+      'unit + pipeline correspondence (every alternative × 3 cases × 12 contexts, substring fillers, neutral pool, all pairs).',
+      TB + '`\\s+` inside multi-word alternatives is taken as one blank in the theorems (three blanks in the pipeline); English is the only culture with a boolean model.',
+      'Lean 4 kernel evaluation over the regenerated finite alternative language + unit/pipeline correspondence',
+      'DESIGN.md §3 C20')
 
 ALL_IDS = ['C%02d' % i for i in range(1, 21)]
 PENDING = 'check not built yet in this revision (work in progress; see DESIGN.md §8 build order)'
